@@ -258,6 +258,14 @@ fn boundary_family(thorough: bool) -> Vec<Vec<u32>> {
     // deltas of 7, 8 and 9 digits that still decode to a VALID scalar: many basic code points and one high
     // code point, so that delta = (high - 0x80) * (n + 1) + pos lies between 35^2 * 10^4 and 2^32 while
     // delta / (n + 1) stays below 0x110000 (a decoder whose weight check is too strict returns None here)
+    // the lowest non-ASCII code point twice with n basic code points between, then a higher one
+    for n in [1usize, 10, 30, 33, 35, 40, 60, 200] {
+        let mut s = vec![0xe9u32];
+        s.extend(std::iter::repeat(0x61u32).take(n));
+        s.push(0xe9);
+        s.push(0xfc);
+        v.push(s);
+    }
     let ns: &[usize] = if thorough { &[30, 300, 1000, 2000, 3000, 3177, 3300, 3501, 3700, 3854] } else { &[300, 3000, 3300, 3501, 3854] };
     for &n in ns {
         for &h in &[0xffffu32, 0x10ffff] {
